@@ -246,7 +246,10 @@ HashAlts(h) == {0, -1, -2, -3, 91, IF h = 1 THEN 2 ELSE 1} \ {h}
 \* every signed field of a QBFTMsg, each with in-range, boundary and out-of-range replacements
 FieldAlts(q) ==
        {<<"type", x>> : x \in {0, 6, -1, (q.type % 5) + 1}}
-  \cup {<<"slot", x>> : x \in {q.duty.slot + 1, ExpSlot, EdgeSlot, BeyondSlot}}
+  \* HugeSlots stand for wire slots with the top bit set (TLC integers are 32 bit: 100000001 = 2^63 + the current slot, whose
+  \* deadline wraps round to the current slot's in 64-bit arithmetic; 100000002 = 2^64 - 1; 100000003 = 2^63): far beyond
+  \* the gater's window like any other slot above it
+  \cup {<<"slot", x>> : x \in {q.duty.slot + 1, ExpSlot, EdgeSlot, BeyondSlot, 100000001, 100000002, 100000003}}
   \cup {<<"dtype", x>> : x \in {0, 14, -1, 4, 6, 13, IF q.duty.type = 2 THEN 1 ELSE 2}}
   \cup {<<"dutynil", 0>>}
   \cup {<<"peer", x>> : x \in {-1, N, (q.peer + 1) % N}}
